@@ -36,6 +36,29 @@ in that tick.  While Cooperator.stop() is on the stack the tasks it has not
 reached yet are `pending`: pause() on them may succeed or raise a
 SchedulerError (statement silent), they still complete exactly once.
 
+Exception universe (knob `bare_w`, 3 of 4 runs): what an iterator raises and what
+a yielded Deferred fails with is drawn from an ordinary Exception and from
+BaseException subclasses outside Exception (a harness class,
+asyncio.CancelledError, KeyboardInterrupt, SystemExit).  The statement says
+"raising" without restriction: the task ends as failed with that exception,
+nothing escapes from the tick or from the firing.
+
+Starvation families: `steady_p` (half of the runs) makes a share of the
+iterators yield plain values for ever, so that tasks stay runnable side by
+side for long (`spare_steady`: pause()/stop() prefer the other tasks);
+`disturb_p` (half of the runs; 0.6 or 1) puts a change of the task set that
+concerns another task right before a tick (pause()+resume() at once, or
+cooperate()+stop() at once), so that consecutive ticks hardly ever see the
+same task set.  Besides the tick-count window (whose bound grows with every
+join/removal) the clause no-starvation has a relative-service form that
+third-party churn does not loosen: while two tasks are runnable side by side
+without interruption, one is advanced at most nmax+1 times before the other
+is advanced once (nmax = most tasks runnable in that time).  Argument for a
+round-robin whose cursor survives removals: between two advances of the one a
+new round starts; in a complete round the other is advanced unless a removal
+makes it lose its turn, which moves it one place forward in the round and so
+happens fewer than nmax times.  The unchanged code stays 2 below this bound.
+
 Two predicted defects of the unchanged tree have dedicated clauses with their
 own signatures (see KNOWN below); the config knob `avoid_known` (3 of 4
 runs) keeps their preconditions from arising so that every other clause is
@@ -44,6 +67,7 @@ exercised on full-length runs.  A third one, found by the re-entrant family
 has the clause coop-stop-reentrant and the knob `stop_pending` (1 of 4 runs),
 see KNOWN_REENTRANT.  All three are fixed in /repo.
 """
+import asyncio
 import os
 
 from twisted.internet import defer, task
@@ -65,13 +89,22 @@ COMPONENTS = {"real": ["twisted.internet.task.Cooperator", "twisted.internet.tas
               "stub": ["scheduler (tape decides when the pending tick runs)", "termination predicate (work-unit count)"]}
 RULE = ("run = up to 8 scripted iterators on one Cooperator (units per tick 1..5, started or not), 10..70 tape-chosen operations "
         "(tick, add task, pause, balanced resume, unpaused resume, stop, whenDone, operation on a finished task, fire/fail a yielded Deferred, "
-        "Cooperator.stop/start); iterator behaviour drawn at each next(); in 6 of 10 runs up to 6 completion Deferreds carry a callback that "
+        "Cooperator.stop/start); iterator behaviour drawn at each next() (raised / Deferred-failure exception types in 3 of 4 runs also "
+        "BaseException subclasses outside Exception: harness class, asyncio.CancelledError, KeyboardInterrupt, SystemExit); in half of the "
+        "runs 40% or 70% of the iterators are steady (plain values for ever; with spare_steady pause/stop prefer the others); in half of the "
+        "runs a tick is preceded (p 0.6 or 1) by a task-set change on another task (pause+resume at once, or cooperate+stop at once); "
+        "in 6 of 10 runs up to 6 completion Deferreds carry a callback that "
         "re-enters the Cooperator with 1..2 operations (add, resume, fire/fail, pause, stop, whenDone, operation on a finished task, "
         "Cooperator.stop, pause - and with knob stop_pending (1 of 4 runs) stop or pause+resume - of a task a Cooperator.stop() in progress "
         "has not reached yet) from wherever the task completes "
         "(tick, task.stop(), Deferred firing, resume() on a stopped Cooperator, Cooperator.stop()); non-trivial = at least 2 tasks, 3 ticks "
         "and one of (pause+resume, a yielded Deferred fired, a task stopped, Cooperator.stop)")
-ASSUMPTIONS = ["operations are issued between ticks or from inside whenDone/coiterate callbacks (wherever those fire), not from inside next(); "
+ASSUMPTIONS = ["starvation (relative form): two tasks runnable side by side without interruption - the one is advanced at most nmax+1 times before "
+               "the other is advanced once (nmax = most tasks runnable at once in that time); proven for round-robin service whose position "
+               "survives removals, 2 above what the unchanged code reaches; the order in which tasks are served is not judged",
+               "an iterator may raise, and a yielded Deferred may fail with, any BaseException (drawn: ScriptError, a harness BaseException subclass, "
+               "asyncio.CancelledError, KeyboardInterrupt, SystemExit); GeneratorExit is not drawn",
+               "operations are issued between ticks or from inside whenDone/coiterate callbacks (wherever those fire), not from inside next(); "
                "scheduler ticks and Cooperator.start() are never issued from inside a callback (start() from inside a running stop() is outside the statement)",
                "a task that was running when Cooperator.stop() began and that stop() has not completed yet may accept pause() or reject it with a "
                "SchedulerError; if a callback stop()s it first, TaskStopped and SchedulerStopped are both accepted as its stop reason (knob stop_pending only)",
@@ -96,6 +129,17 @@ KNOWN_REENTRANT = ["C11:coop-stop-reentrant:task-completed-by-callback:*"]
 
 class ScriptError(Exception):
     pass
+
+
+class ScriptHalt(BaseException):
+    """Harness-defined exception deriving from BaseException but NOT from Exception (an application's own "stop" class)."""
+
+
+# Exception universe of the scripted iterators and of the Deferreds they yield.  The statement says "raising" without
+# restricting the type: besides an ordinary Exception a task may end with a BaseException that is not an Exception
+# (asyncio.CancelledError since Python 3.8, an application class, KeyboardInterrupt/SystemExit raised inside the iterator).
+BARE = (ScriptHalt, asyncio.CancelledError, KeyboardInterrupt, SystemExit)
+CAUGHT = (Exception,) + BARE
 
 
 class Tick:
@@ -129,6 +173,7 @@ class MT:
         self.win = None          # fairness window
         self.raised = {}         # op -> exception type seen on the finished task
         self.nexts = 0
+        self.steady = False      # its iterator yields plain values for as long as it is asked
 
     def runnable(self):
         return self.finished is None and self.user_pauses == 0 and self.waiting is None
@@ -149,8 +194,20 @@ def run(sim):
     stop_pending = (sim.draw_bool(STOP_PENDING_P, "stop_pending") and STOP_PENDING_P > 0) or bool(os.environ.get("VERIF_C11_STOP_PENDING"))
     if os.environ.get("VERIF_C11_AVOID_KNOWN") and not os.environ.get("VERIF_C11_STOP_PENDING"):
         stop_pending = False
+    # exception universe: weight of the BaseException subclasses outside Exception (against 4 for an ordinary Exception); 0 = none
+    bare_w = sim.draw_choice([0, 1, 2, 4], "bare_w")
+    # steady family: share of the tasks whose iterator keeps yielding plain values for as long as it is asked (such a task stays
+    # runnable while the others come and go: the subjects of the starvation clause); 0 = every task draws its behaviour at each next()
+    steady_p = sim.draw_choice([0.0, 0.0, 0.4, 0.7], "steady_p")
+    # in runs with steady tasks: pause()/stop() go to the other tasks when there are any (the steady ones stay runnable for long)
+    spare = bool(steady_p) and sim.draw_bool(0.5, "spare_steady")
+    # disturbance family: with this probability a scheduler tick is immediately preceded by a change of the task set that concerns
+    # another task (a task is paused and resumed at once, or a task is added and stopped at once), so that consecutive ticks
+    # hardly ever see the same set of running tasks; 0 = ticks and the other operations are drawn independently
+    disturb_p = sim.draw_choice([0.0, 0.0, 0.6, 1.0], "disturb_p")
     sim.config = {"units": units, "started": started, "ntasks0": ntasks0, "nops": nops, "avoid_known": avoid,
-                  "reentrant": reent, "stop_pending": stop_pending}
+                  "reentrant": reent, "stop_pending": stop_pending, "bare_w": bare_w, "steady_p": steady_p,
+                  "spare_steady": spare, "disturb_p": disturb_p}
 
     ticks = []
     coop_m = {"started": started, "stopped": False}
@@ -189,13 +246,60 @@ def run(sim):
             if o is not mt and o.win is not None:
                 o.win["app"] += 1
                 o.win["nmax"] = max(o.win["nmax"], n)
-        mt.win = {"ticks": 0, "rem": 0, "app": 0, "nmax": n}
+        mt.win = {"ticks": 0, "rem": 0, "app": 0, "nmax": n, "served": {}}
 
     def left(mt):
         mt.win = None
         for o in tasks:
             if o.win is not None:
                 o.win["rem"] += 1
+                o.win["served"].pop(mt.tid, None)
+
+    def overtaking(mt):
+        """Task mt is being advanced.  Relative service: while two tasks are runnable side by side without interruption, the
+        scheduler may advance one of them only a bounded number of times before it advances the other - whatever joins or leaves
+        around them (joins and removals of third parties do not enter this bound, unlike the tick-count window of op_tick).
+        served[a] of task o = advances of a since o was last advanced (or became runnable), a runnable all that time.
+        Bound for a round-robin over the runnable tasks that survives removals: nmax + 1 (o can lose its turn to a removal at
+        most once per place it has ahead of it in the round, fewer than nmax; between two advances of a a new round starts)."""
+        for o in tasks:
+            if o is mt or o.win is None:
+                continue
+            k = o.win["served"].get(mt.tid, 0) + 1
+            o.win["served"][mt.tid] = k
+            if k > 2:
+                sim.probe("task_overtaken_more_than_twice")
+            sim.check("no-starvation", k <= o.win["nmax"] + 1, "overtaken-by-runnable-neighbour",
+                      lambda: "task %d was advanced %d times while task %d, runnable all that time beside it, was not advanced once "
+                      "(at most %d tasks runnable in that time)" % (mt.tid, k, o.tid, o.win["nmax"]))
+
+    class no_raise:
+        """sim.guard("no-raise", witness) that also judges the BaseException subclasses of the exception universe (sim.guard
+        leaves everything outside Exception alone): what a task raises must end that task, not escape from the operation."""
+
+        def __init__(self, witness):
+            self.witness = witness
+            self.inner = sim.guard("no-raise", witness)
+
+        def __enter__(self):
+            return self
+
+        def __exit__(self, et, ev, tb):
+            if et is not None and issubclass(et, BARE):
+                sim.fail("no-raise", "%s:%s" % (self.witness, et.__name__),
+                         "%s (a task's or Deferred's exception) escaped from the operation" % et.__name__)
+            return self.inner.__exit__(et, ev, tb)
+
+    def make_exc(msg, where):
+        """The exception a scripted iterator raises / a yielded Deferred fails with: drawn from the run's exception universe."""
+        name = "ScriptError"
+        if bare_w:
+            name = sim.draw_weighted([("ScriptError", 4)] + [(c.__name__, bare_w) for c in BARE], "exc_type")
+        for c in BARE:
+            if c.__name__ == name:
+                sim.fault("bare_exception_" + where)
+                return c(msg)
+        return ScriptError(msg)
 
     def finish(mt, kind, expect):
         was = mt.runnable()
@@ -222,9 +326,14 @@ def run(sim):
             sim.check("advance-only-runnable", mt.waiting is None, "waiting-on-deferred", "task %d advanced while the Deferred it yielded is unfired" % mt.tid)
             sim.check("advance-only-in-tick", st["in_tick"], "outside-tick", "task %d advanced outside a scheduler tick" % mt.tid)
             mt.nexts += 1
+            overtaking(mt)
             if mt.win is not None:
                 n = len(runnables())
-                mt.win = {"ticks": 0, "rem": 0, "app": 0, "nmax": n}
+                mt.win = {"ticks": 0, "rem": 0, "app": 0, "nmax": n, "served": {}}
+            if mt.steady:
+                sim.event("yield", mt.tid, "value")
+                sim.probe("steady_task_advanced")
+                return mt.nexts
             kind = sim.draw_weighted([("value", 12), ("deferred", 4), ("exhaust", 2), ("fired-deferred", 1), ("raise", 1), ("failed-deferred", 1)], "next")
             sim.event("yield", mt.tid, kind)
             if kind == "value":
@@ -233,7 +342,7 @@ def run(sim):
                 finish(mt, "done", ("iter", self))
                 raise StopIteration()
             if kind == "raise":
-                exc = ScriptError("task %d" % mt.tid)
+                exc = make_exc("task %d" % mt.tid, "raised_by_iterator")
                 finish(mt, "failed", ("exc", exc))
                 raise exc
             if kind == "fired-deferred":
@@ -242,7 +351,7 @@ def run(sim):
                 joined(mt)
                 return defer.succeed(None)
             if kind == "failed-deferred":
-                exc = ScriptError("task %d deferred" % mt.tid)
+                exc = make_exc("task %d deferred" % mt.tid, "in_failed_deferred")
                 finish(mt, "failed", ("exc", exc))
                 return defer.fail(exc)
             d = defer.Deferred()
@@ -400,6 +509,7 @@ def run(sim):
         tid = len(tasks)
         via = sim.draw_choice(["cooperate", "coiterate"], "via") if sim.draw_bool(0.3, "coiterate?") else "cooperate"
         mt = MT(tid, via)
+        mt.steady = bool(steady_p) and sim.draw_bool(steady_p, "steady")
         it = ScriptIter(mt)
         mt.it = it
         tasks.append(mt)
@@ -409,7 +519,7 @@ def run(sim):
             sim.probe("add_to_stopped_cooperator")
         else:
             joined(mt)
-        with sim.guard("no-raise", "add"):
+        with no_raise("add"):
             if via == "cooperate":
                 mt.task = coop.cooperate(it)
                 watch(mt, mt.task.whenDone())
@@ -427,7 +537,7 @@ def run(sim):
         st["in_tick"] = True
         ctx.append("tick")
         try:
-            with sim.guard("no-raise", "tick"):
+            with no_raise("tick"):
                 t.fn()
         finally:
             ctx.pop()
@@ -449,7 +559,7 @@ def run(sim):
         if mt.runnable():
             left(mt)
         mt.user_pauses += 1
-        with sim.guard("no-raise", "pause"):
+        with no_raise("pause"):
             mt.task.pause()
 
     def op_resume(mt):
@@ -460,7 +570,7 @@ def run(sim):
             enter(mt)
         ctx.append("resume")
         try:
-            with sim.guard("no-raise", "resume"):
+            with no_raise("resume"):
                 mt.task.resume()
         finally:
             ctx.pop()
@@ -471,7 +581,7 @@ def run(sim):
         got = None
         try:
             mt.task.resume()
-        except Exception as e:
+        except CAUGHT as e:
             got = type(e)
         sim.check("resume-unpaused-raises", got is task.NotPaused, "NotPaused", "resume() on an unpaused task raised %r" % (got,))
 
@@ -483,7 +593,7 @@ def run(sim):
         finish(mt, "stopped", ("type", task.TaskStopped))
         ctx.append("task_stop")
         try:
-            with sim.guard("no-raise", "stop"):
+            with no_raise("stop"):
                 mt.task.stop()
         finally:
             ctx.pop()
@@ -496,7 +606,7 @@ def run(sim):
         got = None
         try:
             getattr(mt.task, which)()
-        except Exception as e:
+        except CAUGHT as e:
             got = type(e)
         if mt.finished == "sched":
             ok = got is not None and issubclass(got, task.SchedulerError)
@@ -510,7 +620,7 @@ def run(sim):
 
     def op_whendone(mt):
         sim.event("whenDone", mt.tid)
-        with sim.guard("no-raise", "whenDone"):
+        with no_raise("whenDone"):
             watch(mt, mt.task.whenDone())
 
     def op_fire(did):
@@ -524,14 +634,14 @@ def run(sim):
         mt.waiting = None
         exc = None
         if fail:
-            exc = ScriptError("deferred of task %d" % mt.tid)
+            exc = make_exc("deferred of task %d" % mt.tid, "fails_yielded_deferred")
             if mt.finished is None:
                 finish_nonrunnable(mt, "failed", ("exc", exc))
         elif mt.runnable():
             enter(mt)
         ctx.append("fire")
         try:
-            with sim.guard("no-raise", "fire"):
+            with no_raise("fire"):
                 if fail:
                     d.errback(exc)
                 else:
@@ -545,7 +655,7 @@ def run(sim):
             got = None
             try:
                 mt.task.stop()
-            except Exception as e:
+            except CAUGHT as e:
                 got = type(e)
             sim.check("stopped-state-stable", got is task.TaskStopped and not leftover, "late-deferred-failure",
                       "task %d was stopped while waiting on a Deferred it yielded; after that Deferred failed, stop() raises %s (expected TaskStopped) and the Deferred's chain ended with %s"
@@ -575,7 +685,7 @@ def run(sim):
             coop.stop()
         except Violation:
             raise
-        except Exception as e:
+        except CAUGHT as e:
             if st["pending_completed"]:
                 sim.fail("coop-stop-reentrant", "task-completed-by-callback:" + type(e).__name__,
                          "Cooperator.stop() raised %s: %s after a completion callback it fired had completed a task that stop() had not reached yet"
@@ -613,7 +723,7 @@ def run(sim):
             getattr(mt.task, which)()
         except Violation:
             raise
-        except Exception as e:
+        except CAUGHT as e:
             got = type(e)
         if which == "pause" and got is None:
             pend_paused.append(mt)
@@ -626,8 +736,33 @@ def run(sim):
         sim.event("cooperator.start")
         coop_m["started"] = True
         coop_m["stopped"] = False
-        with sim.guard("no-raise", "cooperator.start"):
+        with no_raise("cooperator.start"):
             coop.start()
+
+    def disturb(running):
+        """A change of the task set right before a tick: a running task leaves the Cooperator and comes straight back
+        (pause()+resume()), or a task is added and stopped at once."""
+        kinds = [("throttle", 3 if running else 0), ("add-stop", 1 if len(tasks) < MAX_TASKS else 0)]
+        if not any(w for _, w in kinds):
+            return
+        kind = sim.draw_weighted(kinds, "disturbance")
+        sim.fault("task_set_changed_right_before_tick")
+        if kind == "throttle":
+            mt = sim.draw_choice(others(running), "which")
+            op_pause(mt)
+            op_resume(mt)
+        else:
+            add_task()
+            mt = tasks[-1]
+            if mt.task is not None and mt.finished is None:
+                op_stop(mt)
+
+    def others(cands):
+        if spare:
+            rest = [mt for mt in cands if not mt.steady]
+            if rest:
+                return rest
+        return cands
 
     # ---------------------------------------------------------------- main loop
     for _ in range(ntasks0):
@@ -659,17 +794,22 @@ def run(sim):
             break
         op = sim.draw_weighted(ops, "op")
         if op == "tick":
+            if disturb_p and sim.draw_bool(disturb_p, "disturb"):
+                disturb(unpaused)
+                audit()
+                if not any(t.active() for t in ticks):
+                    continue
             op_tick()
         elif op == "fire":
             op_fire(sim.draw_choice(sorted(outstanding), "which"))
         elif op == "add":
             add_task()
         elif op == "pause":
-            op_pause(sim.draw_choice(unfinished, "which"))
+            op_pause(sim.draw_choice(others(unfinished), "which"))
         elif op == "resume":
             op_resume(sim.draw_choice(resumable, "which"))
         elif op == "stop":
-            op_stop(sim.draw_choice(unfinished, "which"))
+            op_stop(sim.draw_choice(others(unfinished), "which"))
         elif op == "whenDone":
             op_whendone(sim.draw_choice(handles, "which"))
         elif op == "finished-op":
@@ -685,6 +825,13 @@ def run(sim):
 
 
 MUTANTS = [
+    "round 5 (steady tasks, disturbance before ticks, relative-service clause, BaseException universe):",
+    "task.py _removeTask also restarts the round (self._metarator = iter(self._tasks), seeded r5a): CAUGHT no-starvation:overtaken-by-runnable-neighbour (run 28)",
+    "task.py _tasksWhileNotStopped restarts the round at the beginning of every tick: CAUGHT no-starvation:overtaken-by-runnable-neighbour (run 38; needed ~2000 runs before)",
+    "task.py _oneWorkUnit: except BaseException -> except Exception around next() (seeded r5b): CAUGHT no-raise:tick:CancelledError / :KeyboardInterrupt (run 104)",
+    "task.py _oneWorkUnit: except BaseException -> except (Exception, KeyboardInterrupt, SystemExit): CAUGHT no-raise:tick:ScriptHalt (run 21)",
+    "task.py _addTask inserts the new task at the head of the list instead of appending: SURVIVES (newcomers are served first, but with at most 8 tasks "
+    "nobody waits beyond the bound: not a starvation, the statement does not fix the service order)",
     "re-entrant family: task.py Cooperator.stop: 'self._stopped = True' moved behind the loop (a task entering from a completion callback while stop() runs is accepted and then dropped): CAUGHT whenDone-fires:sched / finished-op-raises:sched / advance-only-runnable:finished (run 21)",
     "re-entrant family: task.py _completeWith fires the Deferreds before removing the task from the Cooperator: CAUGHT no-raise:cooperator.stop:AlreadyCalledError / no-raise:stop:ValueError (run 17)",
     "re-entrant family: task.py Cooperator.stop: guard 'if taskObj._completionState is not None: continue' removed (the tree before the fix, see KNOWN_REENTRANT): "
